@@ -1,2 +1,3 @@
+import FrappyDrive.C17
 import FrappyDrive.C20
 import FrappyDrive.Util
